@@ -161,7 +161,9 @@ def mk_rds(r):
 
 def mk_rrset(labels, r):
     ty, cov, ttl, items, cls = r
-    rr = dns.rrset.RRset(dns.name.Name(labels), cls, ty, cov)
+    # the `deleting` attribute of an RRset (dynamic-update flavour) is ignored by transactions: exercise it
+    deleting = dns.rdataclass.ANY if ttl == 1 else (dns.rdataclass.NONE if ttl == 0 else None)
+    rr = dns.rrset.RRset(dns.name.Name(labels), cls, ty, cov, deleting)
     rr.update_ttl(ttl)
     for body, aux in items:
         rr.add(mk_rdata(ty, cov, body, aux, cls))
